@@ -254,7 +254,7 @@ def harness_text(unit, prof, h):
     cans = h.get('canaries')
     if cans is None:
         cans = [('bl_exc == 0', 'normal return'), ('bl_exc != 0', 'exceptional return')] if h['fn'] in unit.THROWING else [('1', 'return')]
-    can = ['  if (%s) __CPROVER_assert(0, "VACUITY_CANARY %s of %s reachable under the requires clauses");' % (c, n, h['fn']) for c, n in cans]
+    can = ['  if (%s) __CPROVER_assert(0, "VACUITY_CANARY %s of %s reachable under the requires clauses");' % ((prof.subst(c) if hasattr(prof, 'subst') else c), n, h['fn']) for c, n in cans]
     return ['#ifndef NATIVE', 'void h_%s(void) {' % h['name']] + decls + ['  ' + (prof.subst(x) if hasattr(prof, 'subst') else x) for x in h.get('pre', [])] + ['  %s(%s);' % (cn, ', '.join(names))] + can + ['}', '#endif', '']
 
 
